@@ -128,10 +128,10 @@ Proof.
   - destruct d; try discriminate. apply (proj2 IHp). exact H.
   - andbs. rewrite (proj1 IHp1), (proj1 IHp2) by assumption. reflexivity.
   - destruct nm; [discriminate|]. andbs. rewrite (proj2 IHp1), (proj1 IHp2), (proj1 IHp3) by assumption.
-    rewrite !andb_true_r. assumption.
+    reflexivity.
   - destruct nm; [discriminate|]. andbs. rewrite (proj2 IHp1), (proj1 IHp2), (proj2 IHp3) by assumption.
     repeat match goal with H : ?b = true |- context [?b] => rewrite H end. reflexivity.
-  - andbs. rewrite (proj2 IHp1), (proj1 IHp2), (proj1 IHp3) by assumption. rewrite !andb_true_r. assumption.
+  - andbs. rewrite (proj2 IHp1), (proj1 IHp2), (proj1 IHp3) by assumption. reflexivity.
   - andbs. rewrite (proj2 IHp1), (proj1 IHp2), (proj2 IHp3) by assumption.
     repeat match goal with H : ?b = true |- context [?b] => rewrite H end. reflexivity.
   - andbs. rewrite (proj1 IHp2), (proj1 IHp3) by assumption.
